@@ -145,9 +145,9 @@ func (w *World) nonNil(v ssa.Value, facts map[Lit]bool, depth int) bool {
 		return false
 	}
 	// facts first
-	sv := strip(v)
+	sv := throughCell(strip(v))
 	for l := range facts {
-		if y, isNil, ok := nilTest(l); ok && !isNil && (strip(y) == sv || y == v) {
+		if y, isNil, ok := nilTest(l); ok && !isNil && (throughCell(strip(y)) == sv || y == v) {
 			return true
 		}
 	}
